@@ -47,24 +47,45 @@ def lin_ge0(a):
     return a[0] >= 0 and a[0] * 5 + a[1] >= 0
 
 
+def _e_add(a, b):
+    return None if a is None or b is None else lin_add(a, b)
+
+
+def _e_neg(a):
+    return None if a is None else lin_neg(a)
+
+
+def _e_scale(a, c):
+    return None if a is None else lin_scale(a, c)
+
+
+def _norm(iv):
+    if iv is None or (iv[0] is None and iv[1] is None):
+        return None
+    return iv
+
+
 def iv_add(x, y):
+    """intervals are (lo, hi) with each endpoint a linear form in p or None (unbounded on that side)"""
     if x is None or y is None:
         return None
-    return (lin_add(x[0], y[0]), lin_add(x[1], y[1]))
+    return _norm((_e_add(x[0], y[0]), _e_add(x[1], y[1])))
 
 
 def iv_neg(x):
     if x is None:
         return None
-    return (lin_neg(x[1]), lin_neg(x[0]))
+    return _norm((_e_neg(x[1]), _e_neg(x[0])))
 
 
 def iv_scale(x, c):
     if x is None:
         return None
+    if c == 0:
+        return iv_const(0)
     if c >= 0:
-        return (lin_scale(x[0], c), lin_scale(x[1], c))
-    return (lin_scale(x[1], c), lin_scale(x[0], c))
+        return _norm((_e_scale(x[0], c), _e_scale(x[1], c)))
+    return _norm((_e_scale(x[1], c), _e_scale(x[0], c)))
 
 
 def iv_const(c):
@@ -73,7 +94,7 @@ def iv_const(c):
 
 def iv_exact(x):
     """-p < value < p guaranteed"""
-    if x is None:
+    if x is None or x[0] is None or x[1] is None:
         return False
     lo, hi = x
     # lo >= -p + 1  and  hi <= p - 1
@@ -85,6 +106,8 @@ def iv_show(x):
         return "unbounded"
 
     def s(l):
+        if l is None:
+            return "?"
         return "%s*p%+d" % (l[0], l[1]) if l[0] else "%d" % l[1]
     return "[%s, %s]" % (s(x[0]), s(x[1]))
 
@@ -93,8 +116,18 @@ class FCond(SBool):
     """a test `value == 0` on an FInt (possibly negated)"""
     __slots__ = ("F", "val", "neg")
 
+    @property
+    def t(self):
+        raise EngineLimit("a field-mode condition reached an SMT context")
+
+    @t.setter
+    def t(self, v):
+        pass
+
+    def __hash__(self):
+        return id(self)
+
     def __init__(self, F, val, neg=False):
-        SBool.__init__(self, z3.BoolVal(True))
         self.F = F
         self.val = val
         self.neg = neg
@@ -108,17 +141,35 @@ class FCond(SBool):
 
 
 class FInt(SInt):
-    __slots__ = ("F", "res", "iv", "name")
+    __slots__ = ("F", "res", "iv", "name", "zt")
+
+    @property
+    def t(self):
+        # atoms are also plain (uninterpreted) integers on the SMT side; compound field values are not
+        z = getattr(self, "zt", None)
+        if z is not None:
+            return z
+        raise EngineLimit("a field-mode value (%s) reached an SMT context" % (self.res,))
+
+    @t.setter
+    def t(self, v):
+        pass
+
+    def __hash__(self):
+        return id(self)
 
     def __init__(self, F, res, iv, name=None):
-        SInt.__init__(self, z3.IntVal(0))
         self.F = F
         self.res = res
         self.iv = iv
         self.name = name
+        self.zt = None
 
     def __repr__(self):
         return "FInt(%s, %s)" % (self.res, iv_show(self.iv))
+
+    def _iv(self):
+        return self.F.iv_of(self)
 
     def _lift(self, o):
         if isinstance(o, FInt):
@@ -133,7 +184,7 @@ class FInt(SInt):
         o = self._lift(o)
         if o is None:
             return NotImplemented
-        return FInt(self.F, self.res + o.res, iv_add(self.iv, o.iv))
+        return FInt(self.F, self.res + o.res, iv_add(self._iv(), o._iv()))
 
     __radd__ = __add__
 
@@ -143,7 +194,7 @@ class FInt(SInt):
         o = self._lift(o)
         if o is None:
             return NotImplemented
-        return FInt(self.F, self.res - o.res, iv_add(self.iv, iv_neg(o.iv)))
+        return FInt(self.F, self.res - o.res, iv_add(self._iv(), iv_neg(o._iv())))
 
     def __rsub__(self, o):
         o = self._lift(o)
@@ -152,11 +203,11 @@ class FInt(SInt):
         return o - self
 
     def __neg__(self):
-        return FInt(self.F, -self.res, iv_neg(self.iv))
+        return FInt(self.F, -self.res, iv_neg(self._iv()))
 
     def __mul__(self, o):
         if isinstance(o, int) and not isinstance(o, bool):
-            return FInt(self.F, self.res * o, iv_scale(self.iv, o))
+            return FInt(self.F, self.res * o, iv_scale(self._iv(), o))
         o = self._lift(o)
         if o is None:
             return NotImplemented
@@ -213,8 +264,6 @@ class FInt(SInt):
     def __ge__(self, o):
         return self.F.order(self, o, ">=")
 
-    __hash__ = SVal.__hash__
-
 
 class Field(object):
     """per-path knowledge about residues modulo the prime p"""
@@ -228,13 +277,17 @@ class Field(object):
         self.inexact = []       # (line, value, interval) of integer tests that do not coincide with the residue test
         self.anomalous = []     # decisions taken in a world where integer test and residue test differ
         self.p = FInt(self, sp.Integer(0), (lin(1, 0), lin(1, 0)), name="p")
+        self.p.zt = z3.Int("field_prime")
         self.log = []
+        self.ranges = {}        # symbol -> refined interval (from order comparisons taken on this path)
+        self.half = {}
 
     # -- atoms
     def atom(self, name, kind="coord"):
         """coord: 0 <= v < p ; ycoord: -p < v < p ; free: no range known"""
         s = sp.Symbol(name)
         self.atoms[name] = s
+        self.atoms_by_name = getattr(self, "atoms_by_name", {})
         if kind == "coord":
             iv = (lin(0, 0), lin(1, -1))
         elif kind == "ycoord":
@@ -243,10 +296,25 @@ class Field(object):
             return FInt(self, sp.Integer(1), iv_const(1), name=name)
         else:
             iv = None
-        return FInt(self, s, iv, name=name)
+        v = FInt(self, s, iv, name=name)
+        v.zt = z3.Int("atom!" + name)
+        self.atoms_by_name[name] = v
+        return v
 
     def const(self, c):
         return FInt(self, sp.Integer(c), iv_const(c))
+
+    def opaque(self, ex, v, hint="v"):
+        """an SMT-level integer entering the field world: an atom named after the term (no range known)"""
+        self.opaques = getattr(self, "opaques", {})
+        key = str(v.t) if hasattr(v, "t") else repr(v)
+        if key not in self.opaques:
+            ex.n_fresh += 1
+            a = self.atom("%s%d" % (hint, ex.n_fresh), "free")
+            if hasattr(v, "t"):
+                a.zt = v.t          # on the SMT side the atom IS the term it stands for
+            self.opaques[key] = a
+        return self.opaques[key]
 
     # -- normal forms
     def norm(self, e):
@@ -418,7 +486,7 @@ class Field(object):
     # -- tests performed by the code
     def code_test_zero(self, ex, v):
         """the code asks `v == 0` on the integer v; returns the integer answer"""
-        if iv_exact(v.iv):
+        if iv_exact(self.iv_of(v)):
             return self.decide_zero(v.res)
         # not exact: the residue may vanish although the integer does not
         st = self.status(v.res)
@@ -453,8 +521,54 @@ class Field(object):
             self.learn_nonzero(f)
         self.learn_zero(st[k])
 
+    def iv_of(self, v):
+        if isinstance(v.res, sp.Symbol) and v.res in self.ranges:
+            return self.ranges[v.res]
+        return v.iv
+
     def order(self, a, b, op):
-        raise EngineLimit("order comparison %s between field values" % op)
+        """a <op> b on integers: decided from intervals when possible, else forked with interval refinement of bare atoms"""
+        if not isinstance(b, FInt):
+            b = self.const(int(b))
+        if not isinstance(a, FInt):
+            a = self.const(int(a))
+        if op in (">", ">="):
+            return self.order(b, a, "<" if op == ">" else "<=")
+        # a < b  <=>  b - a >= 1 ;  a <= b  <=>  b - a >= 0
+        need = 1 if op == "<" else 0
+        ia, ib = self.iv_of(a) or (None, None), self.iv_of(b) or (None, None)
+        if ib[0] is not None and ia[1] is not None:
+            if lin_ge0(lin_add(lin_add(ib[0], lin_neg(ia[1])), lin(0, -need))):
+                return True
+        if ib[1] is not None and ia[0] is not None:
+            if lin_ge0(lin_add(lin(0, need - 1), lin_neg(lin_add(ib[1], lin_neg(ia[0]))))):
+                return False
+        truth = (self.ex.choose(2) == 0)
+
+        def refine(v, lo=None, hi=None):
+            if not isinstance(v.res, sp.Symbol):
+                return
+            cur = self.iv_of(v) or (None, None)
+            nlo, nhi = cur
+            if lo is not None and (nlo is None or not lin_ge0(lin_add(nlo, lin_neg(lo)))):
+                nlo = lo
+            if hi is not None and (nhi is None or not lin_ge0(lin_add(hi, lin_neg(nhi)))):
+                nhi = hi
+            self.ranges[v.res] = (nlo, nhi)
+            if nlo is not None and nhi is not None:
+                if lin_ge0(lin_add(nlo, lin(0, -1))) and lin_ge0(lin_add(lin(1, -1), lin_neg(nhi))):
+                    self.assume_nonzero(v.res)       # 1 <= v <= p - 1 : a non-zero residue
+        if truth:   # a <= b - need
+            if ib[1] is not None:
+                refine(a, hi=lin_add(ib[1], lin(0, -need)))
+            if ia[0] is not None:
+                refine(b, lo=lin_add(ia[0], lin(0, need)))
+        else:       # a >= b - need + 1
+            if ib[0] is not None:
+                refine(a, lo=lin_add(ib[0], lin(0, 1 - need)))
+            if ia[1] is not None:
+                refine(b, hi=lin_add(ia[1], lin(0, need - 1)))
+        return truth
 
     # -- specification side
     def equal(self, e1, e2):
